@@ -178,9 +178,9 @@ Qed.
 (* registry: "{}" held as a blob does not answer for a config typed as a manifest (other namespace) *)
 Lemma ex_registry_namespace :
   stored KNamespace [mkEntry MediaTypeEmptyJSON empty_json_digest 2 empty_json []]
-         (mkDesc MediaTypeImageManifest empty_json_digest 2 [] [] []) = false /\
+         (mkDesc MediaTypeImageManifest empty_json_digest 2 [] [] no_extra) = false /\
   stored KDigest [mkEntry MediaTypeEmptyJSON empty_json_digest 2 empty_json []]
-         (mkDesc MediaTypeImageManifest empty_json_digest 2 [] [] []) = true.
+         (mkDesc MediaTypeImageManifest empty_json_digest 2 [] [] no_extra) = true.
 Proof. vm_compute. split; reflexivity. Qed.
 
 (* a fault plan: the third storage operation (the manifest push) fails after the config was stored *)
@@ -189,3 +189,15 @@ Lemma ex_fault_plan :
                   (mkOpts None None [] None []) (b "2024-02-29T12:00:00Z") = (s', Err EInjected) /\
              length (s_events s') = 3%nat /\ length (s_store s') = 1%nat.
 Proof. eexists. vm_compute. repeat split; reflexivity. Qed.
+
+(* the premise "not a file store" of the idempotence theorem is needed: a file store refuses to write
+   the named manifest a second time (ErrDuplicateName is not ErrAlreadyExists) *)
+Lemma repeat_call_file_store_refuted :
+  exists o s1 d m s2,
+    ann_get (created_key FArtifact) (o_ann o) = Some (b "2021-07-01T12:00:00Z") /\
+    pack lossy_marshal lossy_H FArtifact (mkTcfg true KFile) None (init_state []) [] o [50] = (s1, Ok d m) /\
+    pack lossy_marshal lossy_H FArtifact (mkTcfg true KFile) None s1 [] o [50] = (s2, Err EInjected).
+Proof.
+  exists (mkOpts None None [(AnnotationArtifactCreated, b "2021-07-01T12:00:00Z"); (AnnotationTitle, b "manifest.json")] None []).
+  eexists _, _, _, _. split; [reflexivity|]. split; vm_compute; reflexivity.
+Qed.
